@@ -48,6 +48,19 @@ CHECKS: dict[str, dict[str, str]] = {
              'replaced by the harness); one cluster-wide peering object; request latency only in the scenarios that say so; known findings '
              'F26 and F27 are attributed by ghost variables of Peering.tla only',
         ref='DESIGN.md 4/C13'),
+    'C20': dict(
+        technique='explicit TLA+ model of the operator\'s task orchestration (Lifecycle.tla: startup/cleanup task, gated root tasks, their '
+                  'children, run_tasks) checked exhaustively with TLC incl. a leads-to; runs of the real kopf.operator() in virtual time '
+                  'validated by TLC against the specification (Trace_Lifecycle.tla, silent steps for the mechanism)',
+        text='TLC: no API request before the startup handlers succeeded, ready only after startup, a failed startup makes no request and runs '
+             'no cleanup, cleanup only after daemons, streams, the peering record and every root task are gone, nothing lingers at return, '
+             'failures are re-raised, and every stop / failure leads to the return - for all startup/cleanup scripts and every position of '
+             'a stop flag, a cancellation and an essential-task failure. Real runs (scripted handlers with durations, daemons, peering, '
+             'triggers at every moment incl. during startup, unknown ERROR events on the observers\' streams and on the handled resource, '
+             'failing re-authentication) must be behaviours of that model, return the outcome it derives, within the grace bound.',
+        note='grace bound = queueing.exit_timeout + the 5 s for hung tasks + daemon cancellation stages + the scripted handler durations; '
+             'sync handlers/daemons in threads are not simulated; F14 and F15 are the known lingering cases',
+        ref='DESIGN.md 4/C20'),
     'C17': dict(
         technique='TLA+ reference state machine of indexing (Indexing.tla); the recorded steps of the real operator are replayed by TLC, which '
                   'predicts the handlers that run and the full contents of every index after each step; gate scenarios judged by the same module',
